@@ -90,3 +90,55 @@ func atomLint(w *World, r *Report, rule string) {
 	r.addRaw(rule, "-", "uses of swap! in the embedded headers", "-", "info", fmt.Sprintf("%d uses, %d checked in statement position / reset! forms", cnt, n))
 	r.floor(rule, "uses of swap! in the embedded headers", cnt, 3)
 }
+
+
+// loadTimeAtoms: reviewed load-time atoms of the embedded headers, by the name their top-level def binds.
+var loadTimeAtoms = map[string]string{
+	"gensym":         "a counter only ever incremented through swap!; callers use the value swap! returned",
+	"load-file-once": "a set of file names that only grows; membership decides whether a file is loaded again",
+}
+
+// loadTimeAtomRule: every (atom …) evaluated while a header is loaded, i.e. outside every fn body.
+func loadTimeAtomRule(w *World, r *Report, rule string) {
+	files, err := w.lispFiles()
+	if err != nil {
+		r.undecided(rule, nil, "lisp headers", token.NoPos, err.Error())
+		return
+	}
+	n := 0
+	var visit func(f *LispFileT, s *sx, def string, inFn bool)
+	visit = func(f *LispFileT, s *sx, def string, inFn bool) {
+		if s == nil {
+			return
+		}
+		h := s.head()
+		if s.macro == "quasiquote" || s.macro == "quote" {
+			inFn = true
+		}
+		switch h {
+		case "fn", "quasiquote", "quote":
+			inFn = true // evaluated later (or never), not while loading
+		case "def", "defmacro":
+			if !inFn && len(s.items) > 1 && s.items[1].kind == "sym" && def == "" {
+				def = s.items[1].text
+			}
+		}
+		if h == "atom" && !inFn {
+			n++
+			status, detail := "violated", "an atom created at load time is captured by the definition of "+nz(def, "(no definition)")+": every evaluation on the environment shares it (for instance one cache for all memoized functions)"
+			if reason, ok := loadTimeAtoms[def]; ok {
+				status, detail = "discharged", "reviewed shared state: "+reason
+			}
+			r.addRaw(rule, f.path, "load-time (atom …) in the definition of "+nz(def, "-"), fmt.Sprintf("%s:%d", f.path, s.line), status, detail)
+		}
+		for _, it := range s.items {
+			visit(f, it, def, inFn)
+		}
+	}
+	for _, f := range files {
+		for _, form := range f.forms {
+			visit(f, form, "", false)
+		}
+	}
+	r.floor(rule, "load-time atoms in the embedded headers", n, 2)
+}
